@@ -155,6 +155,11 @@ func Load(dir, tags string) (*Prog, error) {
 			}
 		}
 	}
+	curProg = p
+	newTypes = computeNewTypes(p.Root)
+	for t := range newTypes {
+		p.CanonNotes = append(p.CanonNotes, "type "+strings.TrimPrefix(t, Mod+"/")+" is not in the baseline: its fields are followed to the values stored into them")
+	}
 	p.LoadS = time.Since(t0).Seconds()
 	t1 := time.Now()
 	prog, _ := ssautil.AllPackages(pkgs, ssa.InstantiateGenerics)
